@@ -11,10 +11,12 @@ Plc(e) == [e.p EXCEPT !.custom = ToSet(@), !.flagsCli = ToSet(@), !.flagsMain = 
 Why(e) ==
   IF \E i, j \in DOMAIN e.values : e.values[i] # e.values[j] THEN "not-deterministic"
   ELSE IF e.values[1] \notin Allowed(Plc(e)) THEN "precedence"
+  ELSE IF \E i \in DOMAIN e.ln : ~LnOK(Plc(e), e.ln[i]) THEN "feature-of-feature"
   ELSE ""
 \* drift: the binary resolves differently from the implementation-shaped model (report, no verdict)
 Drifts(e) == LET q == Plc(e) IN
-             e.values[1] # ImplValue(q, SelectSeq(FlagOrder, LAMBDA f : f \in q.flagsMain))
+             \/ e.values[1] # ImplValue(q, SelectSeq(FlagOrder, LAMBDA f : f \in q.flagsMain))
+             \/ e.ln[1] # ImplLn(q, SelectSeq(FlagOrder, LAMBDA f : f \in q.flagsMain))
 Init == l = 1 /\ failed = <<>> /\ drift = <<>>
 Next == /\ l <= Len(Rec)
         /\ l' = l + 1
